@@ -53,6 +53,26 @@ CHECKS["C01"] = dict(
          "polynomial-time clause; no asymptotic claim). Inputs are bounded samples of 'all Unicode texts'.",
     ref="4 C01", technique="TLA+ model checking (TLC) + spec-to-code replay + trace validation")
 
+CHECKS["C17"] = dict(
+    text="The ordinal rule is specified on digit sequences (spec/OrdinalOps.tla: English rule vs. the code's "
+         "mod-100/mod-10 rule composed with the lexer's decade/number precedence); TLC checks verdict equality "
+         "and fix-cleanliness for every digit string up to the bound x suffix x case. The real "
+         "CorrectNumberSuffix rule is run for every integer below the tier bound (3000 quick / 100000 "
+         "thorough) x 4 suffixes x case variants at 8 sentence positions plus random integers < 2^53, and "
+         "each Ord event is validated by TLC against the verdict recomputed from the digits.",
+    note="Trusted: TLC; harness extraction of the lint relative to the number's position.",
+    ref="4 C17", technique="TLA+ model checking (TLC) + trace validation (exhaustive below the bound)")
+CHECKS["C18"] = dict(
+    text="make_title_case is transcribed over abstract characters (identity, case, ASCII-ness) and tokens with "
+         "proper-noun / capitalisation attributes (spec/TitleCaseOps.tla); TLC checks length, case-only "
+         "difference, first-word capital and idempotence for all token strings in bounds. Real titles built "
+         "from corpus words, dictionary proper nouns in several casings, function words, numbers, hyphenated "
+         "and non-ASCII words are title-cased twice through harper-core and harper-wasm and each Title event "
+         "is validated by TLC (spec/trace/Trace_TitleCase.tla).",
+    note="Trusted: TLC; per-character case folding from Rust's std in the harness. No spec-to-code replay "
+         "(the model's token attributes are abstract); binding is by trace validation only.",
+    ref="4 C18", technique="TLA+ model checking (TLC) + trace validation")
+
 NOT_YET = {}
 
 
